@@ -198,9 +198,15 @@ fn judge(dirs: &Dirs, cs: &CrashState, acked: &[(String, String)], stats: &mut R
         match crate::checks::c04::compare_store_only(&dirs.root, &dirs.workspace, &cs.data, &truth0, cs.index as u64 ^ 0x5eed, 1, &mut sub, &[], &[], Some(&only)) {
             Ok(Some(v)) => {
                 stats.bump("recovered_store_comparisons", 1);
+                // name the cache file the crash left behind (the one about to be written)
+                let mut sig = format!("recovered_store_{}", v.signature);
+                if sig.ends_with(":unexplained") && cs.before_effect.contains("cs:") {
+                    let file = cs.before_effect.split("cs:").nth(1).unwrap_or("?");
+                    sig = format!("{}:lag[{file}]", sig.trim_end_matches(":unexplained"));
+                }
                 let v = Violation {
                     class: format!("recovered_store_{}", v.class),
-                    signature: format!("recovered_store_{}", v.signature),
+                    signature: sig,
                     detail: format!("crash {at}: {}", v.detail),
                 };
                 if !known4.iter().any(|k| crate::driver::sig_matches(k, &v.signature)) {
